@@ -1183,8 +1183,27 @@ def remove_duplicate_functions(source: str, preserve: Collection[str]) -> str:
     root = core.parse(source)
     function_defs = collections.defaultdict(set)
 
+    # What a builtin, an import or another definition of the module is called is part of what a
+    # function does: len(x) is not sum(x). Only what it binds itself could have any other name.
+    names_with_a_meaning = (
+        tracing.get_defined_names(root)
+        | tracing.get_import_bound_names(root)
+        | constants.BUILTIN_FUNCTIONS
+    )
     for node in core.filter_nodes(root.body, ast.FunctionDef):
-        function_defs[abstractions.hash_node(node, preserve)].add(node)
+        own_names = {child.arg for child in ast.walk(node) if isinstance(child, ast.arg)}
+        own_names.update(
+            child.id
+            for child in ast.walk(node)
+            if isinstance(child, ast.Name) and isinstance(child.ctx, (ast.Store, ast.Del))
+        )
+        own_names.update(
+            child.name
+            for child in ast.walk(node)
+            if isinstance(child, (ast.FunctionDef, ast.AsyncFunctionDef, ast.ClassDef))
+        )
+        kept_names = frozenset(preserve) | (names_with_a_meaning - own_names)
+        function_defs[abstractions.hash_node(node, kept_names)].add(node)
 
     delete = set()
     renamings = {}
